@@ -180,7 +180,7 @@ def run(ctx):
     # the function that chooses the sequence type from the file name: what Sequence.load and loadall both call first
     from .common import callees_in_common
     gq = [q_ for q_ in callees_in_common(ctx, "fasta.Sequence.load", "fasta.Sequence.loadall", exclude=("fasta.read_fasta",))
-          if len(ctx.src.func(q_).node.args.args) == 2 and "Sequence" not in q_]
+          if len(ctx.src.func(q_).node.args.args + ctx.src.func(q_).node.args.kwonlyargs) == 2 and "Sequence" not in q_]
     if len(gq) != 1:
         raise AnalysisError(f"file-type helper of Sequence.load/loadall not identified (candidates {gq})")
     g = I.global_name(*gq[0].split(".", 1))
@@ -189,7 +189,9 @@ def run(ctx):
                           ("x.fasta", None, "aa"), ("x.fna", "rna", "rna"),
                           ("GCF_000005845.2_ASM584v2_genomic.fna", None, "dna"), ("run.2/prot.v1.faa", None, "aa"),
                           ("data.v2/x.frn", None, "rna"), ("a.b.ffn", None, "dna"), ("fna", None, "aa"), ("x.fna", "aa", "aa")):
-        got = I.call(g, [fn, typ], {})
+        ga = ctx.src.func(gq[0]).node.args        # (file name, explicit type) in declaration order; keyword-only ones by name
+        vals = [fn, typ]
+        got = I.call(g, vals[:len(ga.args)], {a_.arg: v_ for a_, v_ in zip(ga.kwonlyargs, vals[len(ga.args):])})
         ctx.check(got == want, "R4", f"type of '{fn}' (type={typ}) is {want}", f"got {got!r}", s_g)
     # load / loadall: first record / every record, typed by the extension (or by the explicit type)
     from ptstat.symval import TextFile
